@@ -136,7 +136,7 @@ SCODE_NAMES.update({9: "illegal-sync-order", 10: "unknown-node", 11: "routing-ta
 
 def scorrespondence(pid, wd, cases, outs, tag="s"):
     import concurrent.futures as cf
-    shard = max(6, (len(cases) + 15) // 16)
+    shard = min(max(6, (len(cases) + 15) // 16), 48)
     jobs = [(si, cases[si:si + shard], outs[si:si + shard]) for si in range(0, len(cases), shard)]
 
     def work(job):
